@@ -9,6 +9,7 @@ from vlib import frontend, refcodec
 from vlib.runner import Ctx, HarnessError, Violation, hyp_run, pickle_b64, unpickle_b64
 
 LEVEL = "exploration"
+ALSO_UNDER_O = True  # a second, smaller run in an interpreter started with -O
 RULE = (
     "Hypothesis-generated schemas (1-6 structs, 0-3 enums, all type constructors, widths 1..64, shuffled "
     "field ids, nesting depth <=3 quick / <=5 thorough) parsed by the real front end; per schema 1-8 "
@@ -122,7 +123,7 @@ def run_shard(ctx: Ctx) -> None:
         rec.cls("alternation_history")
         body([steps[i % 2] for i in range(2 * cycles)])
 
-    hyp_run(ctx, CC.codec_alternation(ctx.tier), body_alt, ctx.n(48, 480), tag="alternate", shrink_cap=40)
+    hyp_run(ctx, CC.codec_alternation(ctx.tier), body_alt, ctx.n(32, 480), tag="alternate", shrink_cap=40)
 
 
 def replay(case: Dict[str, Any]) -> Optional[str]:
